@@ -522,7 +522,9 @@ static void run_prefix(uint64_t idx, Ctx& c) {
 
 // ---------------------------------------------------------------------------------------------- c01: robustness under the configuration product (oracle: survives, no sanitizer report, only documented exceptions, bounded time)
 static std::vector<std::string> DTDTOK, XSDTOK;
+static void init_dtdmut();
 static void init_c01_tokens() {
+    init_dtdmut();
     DTDTOK = {"<!ELEMENT a (b,c)>", "<!ELEMENT a (#PCDATA|b)*>", "<!ELEMENT a EMPTY>", "<!ELEMENT a ANY>", "<!ELEMENT a (b", "<!ELEMENT a (b|c,d)>", "<!ELEMENT a ((((((((b))))))))>",
               "<!ELEMENT a (b?,(c|d)*,e+)+>", "<!ELEMENT a (b)><!ELEMENT a (c)>", "<!ELEMENT b (a*)>",
               "<!ATTLIST a x CDATA #IMPLIED>", "<!ATTLIST a x ID #REQUIRED y IDREFS 'q'>", "<!ATTLIST a x (p|q|p) 'p'>", "<!ATTLIST a x NOTATION (n) #IMPLIED>", "<!ATTLIST a x CDATA #FIXED>", "<!ATTLIST a x ENTITIES 'u u'>",
@@ -574,8 +576,20 @@ static void init_cfgs(const std::string& set) {
         CFGS.push_back(c);
     }
 }
+// dtdmut: every single-character deletion and duplication of each well-formed declaration below, inside the internal and the external subset.
+// One damaged character is how the error-recovery branches of DTDScanner are reached (missing '*', ')', '>', quote, keyword letters ...).
+static std::vector<std::string> DTDBASE;
+static std::vector<std::pair<int, int>> DTDMUT;   // (declaration, position*2 + kind)
+static void init_dtdmut() {
+    DTDBASE = {"<!ELEMENT a (#PCDATA|b|c)*>", "<!ELEMENT a (b,(c|d)*,e+)?>", "<!ELEMENT a EMPTY>", "<!ELEMENT a (#PCDATA)>",
+               "<!ATTLIST a x CDATA #IMPLIED y (p|q) 'p'>", "<!ATTLIST a x NOTATION (n|m) #REQUIRED>", "<!ATTLIST a i ID #IMPLIED r IDREFS #FIXED 'k'>",
+               "<!ENTITY e 'v&#38;w'>", "<!ENTITY % p '<!ELEMENT c ANY>'>%p;", "<!ENTITY x PUBLIC 'pub' 'x.ent'>", "<!ENTITY u SYSTEM 'u' NDATA n>",
+               "<!NOTATION n PUBLIC 'p' 's'>", "<![INCLUDE[<!ELEMENT c (b)>]]>", "<![IGNORE[<!x [ y ]]> ]]>", "<?pi d?><!--c-->"};
+    for (size_t d = 0; d < DTDBASE.size(); d++) for (size_t p = 0; p < DTDBASE[d].size(); p++) for (int k = 0; k < 2; k++) DTDMUT.push_back({(int)d, (int)(p * 2 + k)});
+}
 static std::string g_c01_docs = "s1";
 static uint64_t c01_ndocs() {
+    if (g_c01_docs == "dtdmut") return DTDMUT.size() * 2;
     if (g_c01_docs == "s1") return words_upto(TOK.size(), g_k);
     if (g_c01_docs == "s3") return CAT.size();
     if (g_c01_docs == "s4") return words_upto(ITEMS.size(), g_k) * g_s4_attrs * PROLOGS.size();
@@ -588,6 +602,18 @@ static DocCase c01_doc(uint64_t i) {
     if (g_c01_docs == "s3") return CAT[i];
     if (g_c01_docs == "s4") return s4_case(i);
     static const std::string XENT = "<?xml version='1.0' encoding='UTF-8'?>ext<b/>", XPE = "<!ENTITY e 'frompe'><!ELEMENT c (#PCDATA)>";
+    if (g_c01_docs == "dtdmut") {
+        auto m = DTDMUT[i % DTDMUT.size()];
+        std::string sub = DTDBASE[m.first];
+        size_t pos = m.second / 2;
+        if (m.second % 2 == 0) sub.erase(pos, 1); else sub.insert(pos, 1, sub[pos]);
+        sub = "<!ELEMENT b EMPTY>" + sub + "<!ATTLIST b z CDATA 'd'>";
+        DocCase d; d.doctype = true;
+        d.files = {{"/v/x.ent", XENT}, {"/v/x.pe", XPE}};
+        if (i / DTDMUT.size() == 0) d.doc = "<!DOCTYPE a [" + sub + "]><a x='1'>&e;<b/>&x;</a>";
+        else { d.doc = "<!DOCTYPE a SYSTEM 'e.dtd'><a x='1'>&e;<b/>&x;</a>"; d.files.push_back({"/v/e.dtd", sub}); }
+        return d;
+    }
     if (g_c01_docs == "dtd") {
         uint64_t nw = words_upto(DTDTOK.size(), g_k);
         std::string sub; for (int t : word_at(i % nw, DTDTOK.size(), g_k)) sub += DTDTOK[t];
